@@ -146,6 +146,9 @@ func (h *Hist) genConfigs() {
 		mem := int64(r.pickI(4, 8, 16, 15)) * GiB
 		for k := 0; k < nNodes; k++ {
 			ago := int64(r.pickI(0, 10, 100, 100, 1000, 5000, 86400))
+			if r.chance(6) {
+				ago = int64(r.pickI(-3, -40, -500, -41)) // the API server's clock is ahead: created "in the future"
+			}
 			if focus == "ties" {
 				ago = int64(r.pickI(100, 100, 100, 200, 200, 300))
 			}
@@ -264,6 +267,13 @@ func (h *Hist) setLoad(gi int, pct int, jitter int) {
 			}
 		}
 		p := &WPod{Name: name, NS: "ns", Phase: "Running", Annotations: map[string]string{}}
+		if o.Name != "default" && h.r.chance(8) {
+			// a static pod (kubelet manifest) that selects a labelled group: counts like any other pod of that group
+			p.Annotations["kubernetes.io/config.source"] = "file"
+		}
+		if h.r.chance(4) {
+			p.OwnerKinds = []string{h.r.pick("ReplicaSet", "Job", "Node", "StatefulSet")}
+		}
 		if o.Name != "default" {
 			if h.r.chance(80) {
 				p.NodeSelector = map[string]string{"grp": o.LabelValue}
@@ -735,6 +745,7 @@ func (h *Hist) randomEvent() string {
 // runHistory plays one random history of `scans` scans. Returns false if it had to be abandoned.
 func (h *Hist) runHistory(scans int) (bool, string) {
 	h.genConfigs()
+	h.scanInterval = []time.Duration{0, time.Nanosecond, time.Millisecond, time.Minute}[h.r.intn(4)]
 	h.realCtor = h.r.chance(4)
 	h.twinT = h.r.intn(len(h.cfgs))
 	if h.r.chance(50) {
